@@ -1,6 +1,8 @@
 import re
 import collections
 from ..css_abbreviation import parse, tokens, CSSValue, FunctionCall
+from ..scanner import ScannerException
+from ..token_scanner import TokenScannerException
 
 
 re_property = re.compile(r'^([a-z-]+)(?:\s*:\s*([^\n\r;]+?);*)?$')
@@ -42,7 +44,13 @@ def create_snippet(key: str, value: str):
     if m:
         keywords = collections.OrderedDict()
         # NB: an empty alternative (`foo:a|`, `foo:a||b`) has no value to parse
-        parsed = [parse_value(v) for v in m.group(2).split('|') if v.strip()] if m.group(2) else []
+        try:
+            parsed = [parse_value(v) for v in m.group(2).split('|') if v.strip()] if m.group(2) else []
+        except (ScannerException, TokenScannerException) as err:
+            # NB: position of error is a position in snippet, not in abbreviation
+            err.message = 'Invalid snippet "%s": %s' % (key, err.message)
+            err.pos = None
+            raise
 
         for item in parsed:
             for css_val in item:
